@@ -59,6 +59,7 @@ func runC18(r *Run) {
 	r.rule("C18.R4", "SetOrderInitGenesis: a module whose InitGenesis call tree reads a family of another module comes after it", 5)
 	r.rule("C18.R5", "exporters do not filter: inside the iterations of ExportGenesis / GetAll* / All* every element is appended (grouping flushes and decoding successes aside)", 10)
 	r.rule("C18.R6", "genesis validation admits every state the live code can write: same-block opt-in/opt-out heights; a record completing at the import height (C03.R4 class)", 2)
+	iteratorVisitsAllRule(r, "C18.R5", map[string]bool{"x/avs/keeper.Keeper.IterateAVSInfo": true, "x/avs/keeper.Keeper.IterateTaskAVSInfo": true, "x/avs/keeper.Keeper.IterateResultInfo": true, "x/assets/keeper.Keeper.IterateAllClientChains": true, "x/epochs/keeper.Keeper.IterateEpochInfos": true})
 	{
 		n := 0
 		var fos []*types.Func
